@@ -37,84 +37,82 @@ func runC15(c *Ctx) {
 // entry is re-confirmed on every run only in the sense that it must still name
 // an existing unproven site; the reason was established by reading the code.
 var reviewedBounds = map[string]string{
+	// Keys are function + expression with local variables renamed v1, v2, ... in
+	// order of appearance (so renaming a local does not invalidate an entry).
 	// ws: header decoding (also decided byte-exactly by the C01 folds)
-	"ws.ReadHeader: bts[:extra]":               "extra is one of 2,4,6,8,10,12 <= cap(bts)=12 (C01 fold enumerates all first-two-byte values)",
-	"ws.ReadHeader: bts[:2]":                   "length==126 => extra >= 2 bytes were read into bts",
-	"ws.ReadHeader: bts[2:]":                   "same",
-	"ws.ReadHeader: bts[:8]":                   "length==127 => extra >= 8",
-	"ws.ReadHeader: bts[8:]":                   "same",
-	"ws.ReadHeader: bts[0]":                    "length==127 => extra >= 8",
-	"wsutil.(*Reader).readHeader: bts[:extra]": "extra <= 12 = len(r.tmp) (C01 fold)",
-	"wsutil.(*Reader).readHeader: bts[:2]":     "length==126 => extra >= 2",
-	"wsutil.(*Reader).readHeader: bts[2:]":     "same",
-	"wsutil.(*Reader).readHeader: bts[:8]":     "length==127 => extra >= 8",
-	"wsutil.(*Reader).readHeader: bts[8:]":     "same",
-	"wsutil.(*Reader).readHeader: bts[0]":      "length==127 => extra >= 8",
-	// ws: masking (C02 fold decides every index for lengths 0..72, all offsets)
-	"ws.Cipher: payload[i]":         "i < n = len(payload) (loop bound); head loop i < ln <= 3 < 8 <= n; tail loop n-rn <= i < n",
-	"ws.Cipher: mask[(offset+i)%4]": "x%4 in 0..3 for non-negative x; offset is a non-negative stream position",
-	"ws.Cipher: mask[(mpos+i)%4]":   "same",
-	"ws.Cipher: remain[mpos]":       "mpos = offset%4 in 0..3 for non-negative offset",
-	"ws.Cipher: payload[j : j+16]":  "j = ln+16*i, i < (n-ln-rn)/16 => j+16 <= n-rn (C02 fold)",
-	"ws.Cipher: chunk[8:]":          "len(chunk) == 16",
-	// ws: http parsing helpers
-	"ws.bsplit3: bts[a+1:]":                                 "a >= -1 and a < len(bts) (IndexByte result) => 0 <= a+1 <= len(bts)",
-	"ws.bsplit3: bts[:a]":                                   "reached only when a != -1 => 0 <= a < len(bts)",
-	"ws.bsplit3: bts[a+1 : b]":                              "b = a+1+IndexByte(bts[a+1:]) with a non-negative result => a+1 <= b < len(bts)",
-	"ws.bsplit3: bts[b+1:]":                                 "b < len(bts)",
-	"ws.btrim: bts[i]":                                      "guarded by i < len(bts) in the loop condition",
-	"ws.btrim: bts[j-1]":                                    "guarded by j > i >= 0",
-	"ws.btrim: bts[i:j]":                                    "0 <= i <= j <= len(bts) by the two loops",
-	"ws.canonicalizeHeaderKey: k[i]":                        "i ranges over k",
-	"ws.httpParseVersion: bts[:5]":                          "reached only when len(bts) >= 8 (the case before returns otherwise)",
-	"ws.httpParseVersion: bts[5:]":                          "same",
-	"ws.httpParseVersion: bts[:dot]":                        "dot != -1 => 0 <= dot < len(bts)",
-	"ws.httpParseVersion: bts[dot+1:]":                      "dot < len(bts)",
-	"ws.httpParseHeaderLine: line[:colon]":                  "colon != -1 => 0 <= colon < len(line)",
-	"ws.httpParseHeaderLine: line[colon+1:]":                "colon < len(line)",
-	"ws.asciiToInt: bts[i]":                                 "i < n = len(bts)",
-	"ws.readLine: line[n-2]":                                "guarded by n > 1",
-	"ws.readLine: line[:n-2]":                               "guarded by n > 1",
-	"ws.readLine: line[:n-1]":                               "n >= 1: ReadSlice returned without error, so the line ends in the delimiter",
-	"ws.hostport: host[:colon]":                             "colon > bracket >= -1 => colon >= 0 and < len(host)",
-	"ws.ParseCloseFrameData: payload[2:]":                   "guarded by len(payload) >= 2 (C03 fold)",
-	"ws.ParseCloseFrameDataUnsafe: payload[2:]":             "same",
-	"ws.NewCloseFrameBody: reason[:crop]":                   "crop = min(123, len(reason)) (C03 fold)",
-	"ws.PutCloseFrameBody: p[1+len(reason)]":                "explicit bounds assertion, documented to panic on a short buffer; callers inside the module size p from len(reason) (C03 fold)",
-	"ws.PutCloseFrameBody: p[2:]":                           "after the assertion above len(p) >= 2",
-	"ws.WriteHeader: bts[n:]":                               "n in {2,4,10} <= 14 = len(bts) (C01 fold)",
-	"ws.CompileFrame: <expression at column 17>":            "make([]byte, 0, 16)",
-	"ws.matchSelectedExtensions: <expression at column 25>": "append to a slice",
-	// wsflate
-	"wsflate.(*cbuf).Write: c.buf[:x]":                    "x = n - 4 with n = c.n + len(tail) <= 8 => 0 < x <= 4 and x <= c.n (C12 fold decides all fill levels)",
-	"wsflate.(*cbuf).Write: c.buf[x:]":                    "same",
-	"wsflate.(*cbuf).Write: c.buf[c.n:]":                  "0 <= c.n <= 4 is the struct invariant kept by Write (C12 fold)",
-	"wsflate.(*suffixedReader).Read: r.suffix[r.pos:]":    "guarded by r.pos < len(r.suffix); pos only grows by copy counts (C12 fold)",
-	"wsflate.(*suffixedReader).ReadByte: r.suffix[r.pos]": "guarded by r.pos < len(r.suffix)",
-	"wsflate.setBits: windowBits[bits-8]":                 "guarded by isValidBits(bits): 8 <= bits <= 15",
-	"wsflate.init: windowBits[i]":                         "i ranges over windowBits",
-	// wsutil: reader / handlers / utf8
-	"wsutil.(*CipherReader).Read: p[:n]":                "n is the count returned by the source for p, 0 <= n <= len(p) by the io.Reader contract",
-	"wsutil.(*UTF8Reader).Read: p[i]":                   "i < n <= len(p) by the io.Reader contract",
-	"wsutil.decode: utf8d[b]":                           "b is a byte, len(utf8d) = 364 (C07 fold)",
-	"wsutil.decode: utf8d[256+state+t]":                 "state in {0,12,..,96}, t <= 11 => index <= 363 (C07 fold evaluates every reachable state x byte)",
-	"wsutil.(ControlHandler).HandleClose: p[:h.Length]": "len(p) = Length + header size and 0 < Length <= 125 (C08 fold)",
-	"wsutil.(ControlHandler).HandleClose: p[:2]":        "len(p) >= 1 + 2 (C08 fold)",
-	"wsutil.ReadMessage: <expression at column 16>":     "make([]byte, h.Length): see the allocation rule",
-	"ws.WriteHeader: bts[:n]":                           "n in {2,4,10} (+4) <= 14 = len(bts) (C01 fold)",
+	"ws.ReadHeader: v1[:v2]":               "extra is one of 2,4,6,8,10,12 <= cap(bts)=12 (C01 fold enumerates all first-two-byte values)",
+	"ws.ReadHeader: v1[:2]":                "length==126 => extra >= 2 bytes were read",
+	"ws.ReadHeader: v1[2:]":                "same",
+	"ws.ReadHeader: v1[:8]":                "length==127 => extra >= 8",
+	"ws.ReadHeader: v1[8:]":                "same",
+	"ws.ReadHeader: v1[0]":                 "length==127 => extra >= 8",
+	"wsutil.(*Reader).readHeader: v1[:v2]": "extra <= 12 = len(r.tmp) (C01 fold)",
+	"wsutil.(*Reader).readHeader: v1[:2]":  "length==126 => extra >= 2",
+	"wsutil.(*Reader).readHeader: v1[2:]":  "same",
+	"wsutil.(*Reader).readHeader: v1[:8]":  "length==127 => extra >= 8",
+	"wsutil.(*Reader).readHeader: v1[8:]":  "same",
+	"wsutil.(*Reader).readHeader: v1[0]":   "length==127 => extra >= 8",
+	// ws: masking (the C02 fold decides every index for lengths 0..72, all offsets)
+	"ws.Cipher: v1[v2]":        "i < n = len(payload) (loop bound); head loop i < ln <= 3 < 8 <= n; tail loop n-rn <= i < n",
+	"ws.Cipher: v1[(v2+v3)%4]": "x%4 in 0..3 for non-negative x; offset is a non-negative stream position",
+	"ws.Cipher: remain[v1]":    "mpos = offset%4 in 0..3 for non-negative offset",
+	"ws.Cipher: v1[v2:v2+16]":  "j = ln+16*i, i < (n-ln-rn)/16 => j+16 <= n-rn (C02 fold)",
+	"ws.Cipher: v1[8:]":        "len(chunk) == 16",
+	// ws: http parsing helpers (the parse-helpers folds decide all separator positions for short inputs)
+	"ws.bsplit3: v1[v2+1:]":                "a >= -1 and a < len(bts) (IndexByte result) => 0 <= a+1 <= len(bts)",
+	"ws.bsplit3: v1[:v2]":                  "reached only when a != -1 => 0 <= a < len(bts)",
+	"ws.bsplit3: v1[v2+1:v3]":              "reached only when a != -1 and b != -1: b = a+1+IndexByte(bts[a+1:]) => a+1 <= b < len(bts)",
+	"ws.bsplit3: v1[v2+1:]#2":              "b < len(bts)",
+	"ws.btrim: v1[v2]":                     "guarded by i < len(bts) in the loop condition",
+	"ws.btrim: v1[v2-1]":                   "guarded by j > i >= 0",
+	"ws.btrim: v1[v2:v3]":                  "0 <= i <= j <= len(bts) by the two loops",
+	"ws.canonicalizeHeaderKey: v1[v2]":     "i ranges over k",
+	"ws.httpParseVersion: v1[:5]":          "reached only when len(bts) >= 8 (the case before returns otherwise)",
+	"ws.httpParseVersion: v1[5:]":          "reached only when len(bts) >= 8",
+	"ws.httpParseVersion: v1[:v2]":         "dot != -1 => 0 <= dot < len(bts)",
+	"ws.httpParseVersion: v1[v2+1:]":       "dot != -1 => dot < len(bts)",
+	"ws.httpParseHeaderLine: v1[:v2]":      "colon != -1 => 0 <= colon < len(line)",
+	"ws.httpParseHeaderLine: v1[v2+1:]":    "colon != -1 => colon < len(line)",
+	"ws.asciiToInt: v1[v2]":                "i < n = len(bts) (loop bound)",
+	"ws.readLine: v1[v2-2]":                "guarded by n > 1",
+	"ws.readLine: v1[:v2-2]":               "guarded by n > 1",
+	"ws.readLine: v1[:v2-1]":               "n >= 1: ReadSlice returned without error, so the line ends in the delimiter",
+	"ws.hostport: v1[:v2]":                 "colon > bracket >= -1 => colon >= 0 and < len(host)",
+	"ws.ParseCloseFrameData: v1[2:]":       "guarded by len(payload) >= 2 (C03 fold)",
+	"ws.ParseCloseFrameDataUnsafe: v1[2:]": "guarded by len(payload) >= 2",
+	"ws.NewCloseFrameBody: v1[:v2]":        "crop = min(123, len(reason)) (C03 fold)",
+	"ws.PutCloseFrameBody: v1[1+len(v2)]":  "explicit bounds assertion, documented to panic on a short buffer; callers inside the module size p from len(reason) (C03 fold)",
+	"ws.PutCloseFrameBody: v1[2:]":         "after the assertion above len(p) >= 2",
 	"ws.PutCloseFrameBody: inlined (encoding/binary.bigEndian).PutUint16 at binary.BigEndian.PutUint16(...)": "after the assertion p[1+len(reason)] the buffer has at least 2 bytes",
+	"ws.WriteHeader: v1[v2:]": "n in {2,4,10} <= 14 = len(bts) (C01 fold)",
+	"ws.WriteHeader: v1[:v2]": "n in {2,4,10} (+4) <= 14 = len(bts) (C01 fold)",
+	// wsflate
+	"wsflate.(*cbuf).Write: v1.buf[:v2]":                    "x = n - 4 with n = c.n + len(tail) <= 8 => 0 < x <= 4 and x <= c.n (C12 fold decides all fill levels)",
+	"wsflate.(*cbuf).Write: v1.buf[v2:]":                    "same",
+	"wsflate.(*cbuf).Write: v1.buf[v1.n:]":                  "0 <= c.n <= 4 is the struct invariant kept by Write (C12 fold)",
+	"wsflate.(*suffixedReader).Read: v1.suffix[v1.pos:]":    "guarded by r.pos < len(r.suffix); pos only grows by copy counts (C12 fold)",
+	"wsflate.(*suffixedReader).ReadByte: v1.suffix[v1.pos]": "guarded by r.pos < len(r.suffix)",
+	"wsflate.setBits: windowBits[v1-8]":                     "guarded by isValidBits(bits): 8 <= bits <= 15",
+	"wsflate.init: windowBits[v1]":                          "i ranges over windowBits",
+	// wsutil: reader / handlers / utf8
+	"wsutil.(*CipherReader).Read: v1[:v2]":                "n is the count returned by the source for p, 0 <= n <= len(p) by the io.Reader contract",
+	"wsutil.(*UTF8Reader).Read: v1[v2]":                   "i < n <= len(p) by the io.Reader contract (loop bound)",
+	"wsutil.decode: utf8d[v1]":                            "b is a byte, len(utf8d) = 364 (C07 fold)",
+	"wsutil.decode: utf8d[256+v1+v2]":                     "state in {0,12,..,96}, t <= 11 => index <= 363 (C07 fold evaluates every reachable state x byte)",
+	"wsutil.(ControlHandler).HandleClose: v1[:v2.Length]": "len(p) = Length + header size and 0 < Length <= 125 (C08 fold)",
+	"wsutil.(ControlHandler).HandleClose: v1[:2]":         "len(p) >= 1 + 2 (C08 fold)",
 	// wsutil writer: reachable because the handlers answer through a ControlWriter; every size is the library's own
-	"wsutil.(*Writer).Grow: p[nextOffset-prevOffset:]":         "nextOffset >= prevOffset (reserve is monotone in the size) and p has size >= nextOffset bytes",
-	"wsutil.(*Writer).Grow: w.raw[:prevOffset+buffered]":       "prevOffset+buffered <= len(w.raw): buffered <= len(w.buf) = len(w.raw)-prevOffset",
-	"wsutil.(*Writer).Grow: w.raw[nextOffset:]":                "size > nextOffset by the loop that computed them",
-	"wsutil.(*Writer).Write: p[nn:]":                           "nn is a copy count or the length WriteThrough accepted, 0 <= nn <= len(p) (C06 fold: accounting)",
-	"wsutil.(*Writer).Write: w.buf[w.n:]":                      "0 <= w.n <= len(w.buf): n only grows by copy counts into w.buf[w.n:] and is reset to 0",
-	"wsutil.(*Writer).flushFragment: w.buf[:w.n]":              "same invariant",
-	"wsutil.(*Writer).flushFragment: w.raw[skip : offset+w.n]": "0 <= skip = offset - HeaderSize <= offset (C06 reservation rule) and offset+n <= len(raw)",
-	"wsutil.(*Writer).flushFragment: w.raw[skip:offset]":       "same",
-	"wsutil.(*Writer).initBuf: w.raw[offset:]":                 "guarded by the panic on len(w.raw) <= offset just above",
-	"wsutil.(*bytesWriter).Write: w.buf[w.pos:]":               "pos only grows by copy counts into buf[pos:]",
-	"wsutil.NewControlWriterBuffer: buf[:max]":                 "guarded by len(buf) > max",
+	"wsutil.(*Writer).Grow: v1[v2-v3:]":                  "nextOffset >= prevOffset (reserve is monotone in the size) and p has size >= nextOffset bytes",
+	"wsutil.(*Writer).Grow: v1.raw[:v2+v3]":              "prevOffset+buffered <= len(w.raw): buffered <= len(w.buf) = len(w.raw)-prevOffset",
+	"wsutil.(*Writer).Grow: v1.raw[v2:]":                 "size > nextOffset by the loop that computed them",
+	"wsutil.(*Writer).Write: v1[v2:]":                    "nn is a copy count or the length WriteThrough accepted, 0 <= nn <= len(p) (C06 fold: accounting)",
+	"wsutil.(*Writer).Write: v1.buf[v1.n:]":              "0 <= w.n <= len(w.buf): n only grows by copy counts into w.buf[w.n:] and is reset to 0",
+	"wsutil.(*Writer).flushFragment: v1.buf[:v1.n]":      "same invariant",
+	"wsutil.(*Writer).flushFragment: v1.raw[v2:v3+v1.n]": "0 <= skip = offset - HeaderSize <= offset (C06 reservation rule) and offset+n <= len(raw)",
+	"wsutil.(*Writer).flushFragment: v1.raw[v2:v3]":      "same",
+	"wsutil.(*Writer).initBuf: v1.raw[v2:]":              "guarded by the panic on len(w.raw) <= offset just above",
+	"wsutil.(*bytesWriter).Write: v1.buf[v1.pos:]":       "pos only grows by copy counts into buf[pos:]",
+	"wsutil.NewControlWriterBuffer: v1[:v2]":             "guarded by len(buf) > max",
 }
 
 func c15Bounds(c *Ctx) {
